@@ -60,6 +60,7 @@ props! {
     "C18" => c18,
     "C19" => c19,
     "C21" => c21,
+    "C22" => c22,
     "C23" => c23,
     "C24" => c24,
 }
